@@ -1,4 +1,5 @@
 import DendroModel.Model.C08
+import DendroModel.Model.C08Upd
 open DendroModel DendroModel.C08
 
 /-- `<k> n_1 … n_k rest…` -/
@@ -34,8 +35,116 @@ def parseAcc (ws : List String) : Option (Acc × List String) :=
 
 def renderRem (r : T × List Nat) : String := r.1.render ++ " | " ++ natList (sortNat r.2)
 
+/-- `<n> bit hexlabel …` : namespace members in order -/
+def takeNs (ws : List String) : Option (Ns × List String) :=
+  match ws with
+  | [] => none
+  | n :: rest =>
+    match n.toNat? with
+    | none => none
+    | some n =>
+      if rest.length < 2 * n then none else
+      let rec go : Nat → List String → Option Ns
+        | 0, _ => some []
+        | k + 1, b :: l :: more =>
+          match b.toNat?, decodeStr l, go k more with
+          | some b, some (some l), some r => some ((b, l) :: r)
+          | _, _, _ => none
+        | _ + 1, _ => none
+      match go n (rest.take (2 * n)) with
+      | some ns => some (ns, rest.drop (2 * n))
+      | none => none
+
+def takeStrs (ws : List String) : Option (List String × List String) :=
+  match ws with
+  | [] => none
+  | k :: rest =>
+    match k.toNat? with
+    | none => none
+    | some k =>
+      if rest.length < k then none else
+      match (rest.take k).mapM (fun s => match decodeStr s with | some (some x) => some x | _ => none) with
+      | some xs => some (xs, rest.drop k)
+      | none => none
+
+def parseRooted (s : String) : Option (Option Bool) :=
+  if s == "R" then some (some true) else if s == "U" then some (some false) else if s == "N" then some none else none
+
+def insertPair (x : Nat × Int) : List (Nat × Int) → List (Nat × Int)
+  | [] => [x]
+  | y :: ys => if x.1 < y.1 || (x.1 == y.1 && x.2 ≤ y.2) then x :: y :: ys else y :: insertPair x ys
+
+def renderUpd (r : T × List (Nat × Int)) : String :=
+  r.1.render ++ " | " ++ " ".intercalate ((r.2.foldr insertPair []).map (fun p => s!"{p.1}:{p.2}"))
+
+def exResStr : ExRes → String
+  | .ok r => r.render
+  | .seedDeletion => "SeedNodeDeletion"
+  | .valueError => "ValueError"
+
 def handle (ws : List String) : String :=
   match ws with
+  -- exspec <sup> <fl> <fi> <acc> <tree>: the two-flag specification of extraction
+  | "exspec" :: sup :: fl :: fi :: rest =>
+    match flag sup, flag fl, flag fi, parseAcc rest with
+    | some sup, some fl, some fi, some (acc, rest) =>
+      match parseTree rest with
+      | some (t, []) => match exSpec acc fl fi sup t with
+        | some r => r.render
+        | none => "none"
+      | _ => "bad-op"
+    | _, _, _, _ => "bad-op"
+  -- bylabel <prune|retain|with|without> <sup> <case-sensitive> <namespace> <k> <labels…> <tree>
+  | "bylabel" :: v :: sup :: cs :: rest =>
+    match flag sup, flag cs, takeNs rest with
+    | some sup, some cs, some (ns, rest) =>
+      match takeStrs rest with
+      | some (labels, rest) =>
+        match parseTree rest with
+        | some (t, []) =>
+          if v == "prune" then (match pruneWithLabels cs ns labels sup t with | some r => r.render | none => "err")
+          else if v == "retain" then (match retainWithLabels cs ns labels sup t with | some r => r.render | none => "err")
+          else if v == "with" then exResStr (extractWithLabels cs ns labels sup t)
+          else if v == "without" then exResStr (extractWithoutLabels cs ns labels sup t)
+          else "bad-op"
+        | _ => "bad-op"
+      | none => "bad-op"
+    | _, _, _ => "bad-op"
+  -- upd <R|U|N> <sup> prune <k> <P…> <tree> | retain <m> <ns…> <k> <K…> <tree> | filter <acc> <tree> | subtree <id> <tree>
+  | "upd" :: r :: sup :: "prune" :: rest =>
+    match parseRooted r, flag sup, takeNats rest with
+    | some r, some sup, some (P, rest) =>
+      match parseTree rest with
+      | some (t, []) => match pruneTaxaUpd r (fun k => P.contains k) sup t with
+        | some x => renderUpd x
+        | none => "err"
+      | _ => "bad-op"
+    | _, _, _ => "bad-op"
+  | "upd" :: r :: sup :: "retain" :: rest =>
+    match parseRooted r, flag sup, takeNats rest with
+    | some r, some sup, some (ns, rest) =>
+      match takeNats rest with
+      | some (K, rest) =>
+        match parseTree rest with
+        | some (t, []) => match retainTaxaUpd r ns (fun k => K.contains k) sup t with
+          | some x => renderUpd x
+          | none => "err"
+        | _ => "bad-op"
+      | none => "bad-op"
+    | _, _, _ => "bad-op"
+  | "upd" :: r :: sup :: "filter" :: rest =>
+    match parseRooted r, flag sup, parseAcc rest with
+    | some r, some sup, some (acc, rest) =>
+      match parseTree rest with
+      | some (t, []) => match filterLeavesUpd r acc sup t with
+        | some x => renderUpd x
+        | none => "err"
+      | _ => "bad-op"
+    | _, _, _ => "bad-op"
+  | "upd" :: r :: sup :: "subtree" :: i :: rest =>
+    match parseRooted r, flag sup, i.toNat?, parseTree rest with
+    | some r, some sup, some i, some (t, []) => if i == t.id then "err" else renderUpd (pruneSubtreeUpd r i sup t)
+    | _, _, _, _ => "bad-op"
   -- restrict <sup> <acc> <tree>: the specification itself
   | "restrict" :: sup :: rest =>
     match flag sup, parseAcc rest with
